@@ -2282,6 +2282,16 @@ impl Zeroconf {
     ) -> Vec<u8> {
         let is_ipv4 = sock.domain() == Domain::IPV4;
 
+        // Say goodbye under the names announced on this interface, i.e. after any
+        // rename due to conflicts.
+        let (fullname, hostname) = match self.dns_registry_map.get(&intf.index) {
+            Some(registry) => (
+                registry.resolve_name(info.get_fullname()),
+                registry.resolve_name(info.get_hostname()),
+            ),
+            None => (info.get_fullname(), info.get_hostname()),
+        };
+
         let mut out = DnsOutgoing::new(FLAGS_QR_RESPONSE | FLAGS_AA);
         out.add_answer_at_time(
             DnsPointer::new(
@@ -2289,7 +2299,7 @@ impl Zeroconf {
                 RRType::PTR,
                 CLASS_IN,
                 0,
-                info.get_fullname().to_string(),
+                fullname.to_string(),
             ),
             0,
         );
@@ -2302,7 +2312,7 @@ impl Zeroconf {
                     RRType::PTR,
                     CLASS_IN,
                     0,
-                    info.get_fullname().to_string(),
+                    fullname.to_string(),
                 ),
                 0,
             );
@@ -2310,19 +2320,19 @@ impl Zeroconf {
 
         out.add_answer_at_time(
             DnsSrv::new(
-                info.get_fullname(),
+                fullname,
                 CLASS_IN | CLASS_CACHE_FLUSH,
                 0,
                 info.get_priority(),
                 info.get_weight(),
                 info.get_port(),
-                info.get_hostname().to_string(),
+                hostname.to_string(),
             ),
             0,
         );
         out.add_answer_at_time(
             DnsTxt::new(
-                info.get_fullname(),
+                fullname,
                 CLASS_IN | CLASS_CACHE_FLUSH,
                 0,
                 info.generate_txt(),
@@ -2343,7 +2353,7 @@ impl Zeroconf {
         for address in if_addrs {
             out.add_answer_at_time(
                 DnsAddress::new(
-                    info.get_hostname(),
+                    hostname,
                     ip_address_rr_type(&address),
                     CLASS_IN | CLASS_CACHE_FLUSH,
                     0,
@@ -3299,11 +3309,12 @@ impl Zeroconf {
                     continue;
                 }
 
-                add_answer_of_service(
+                add_answer_of_service_as(
                     &mut out,
                     &msg,
                     question.entry_name(),
                     service,
+                    dns_registry.resolve_name(service.get_hostname()),
                     qtype,
                     intf_addrs,
                 );
@@ -3941,11 +3952,27 @@ impl Zeroconf {
 }
 
 /// Adds one or more answers of a service for incoming msg and RR entry name.
+#[cfg(test)]
 fn add_answer_of_service(
     out: &mut DnsOutgoing,
     msg: &DnsIncoming,
     entry_name: &str,
     service: &ServiceInfo,
+    qtype: RRType,
+    intf_addrs: Vec<IpAddr>,
+) {
+    let hostname = service.get_hostname();
+    add_answer_of_service_as(out, msg, entry_name, service, hostname, qtype, intf_addrs)
+}
+
+/// Adds the answers for `service`, whose host name is `hostname` after any rename
+/// due to conflicts.
+fn add_answer_of_service_as(
+    out: &mut DnsOutgoing,
+    msg: &DnsIncoming,
+    entry_name: &str,
+    service: &ServiceInfo,
+    hostname: &str,
     qtype: RRType,
     intf_addrs: Vec<IpAddr>,
 ) {
@@ -3959,7 +3986,7 @@ fn add_answer_of_service(
                 service.get_priority(),
                 service.get_weight(),
                 service.get_port(),
-                service.get_hostname().to_string(),
+                hostname.to_string(),
             ),
         );
     }
@@ -3979,7 +4006,7 @@ fn add_answer_of_service(
     if qtype == RRType::SRV {
         for address in intf_addrs {
             out.add_additional_answer(DnsAddress::new(
-                service.get_hostname(),
+                hostname,
                 ip_address_rr_type(&address),
                 CLASS_IN | CLASS_CACHE_FLUSH,
                 service.get_host_ttl(),
